@@ -371,7 +371,7 @@ func main() {
 		c.D.Rule = "every prefix length 0..len-1 of every generated still file (lossy Partitions 0..3, lossless opaque/alpha, lossy+ALPH raw/compressed, VP8X with ICC before and EXIF/XMP after the image); plus every prefix of every VP8 / VP8L / ALPH payload of those files re-wrapped with consistent sizes, plus random (data, probabilities, extension) runs of bitio.BoolReader; each prefix is delivered through bytes.Reader, a reader without Len/WriteTo/ReadAt, a reader returning 1..7 bytes per Read, bufio.Reader, and (container.NewParser, animation.DecodeBytes) as slices with spare capacity holding the rest of the file, garbage, zeros; evaluation = Decode+DecodeConfig+GetFeatures on one prefix through one carrier / one re-wrapped file, or one pair of reader runs; non-trivial = distinct (file kind, chunk and part of chunk where the cut falls, outcome) triple, (file kind, chunk, outcome) for payload cuts, (data length, reads, flag) for reader runs"
 		c.D.Notes = append(c.D.Notes,
 			"direct evaluation runs the real codecs on every prefix: it covers the bit readers' end-of-stream handling (VP8 bool decoder, VP8L bit reader, ALPH), which the Coq theorems treat as a parameter of the container/glue layer",
-			"correspondence: container.NewParser on every prefix vs the extracted ParserModel.parse (result class, features, frame payload/alpha digests and lengths); bitio.BoolReader (NewBoolReader + GetBit, state and EOF() after every read) vs the extracted Vp8GoReader.gr_bit on random data / probabilities, most runs reading past the end",
+			"correspondence: container.NewParser on every prefix vs the extracted ParserModel.parse (accepted or rejected -- one token, the error class is only counted --, features, frame payload/alpha digests and lengths); bitio.BoolReader (NewBoolReader + GetBit, state and EOF() after every read) vs the extracted Vp8GoReader.gr_bit on random data / probabilities, most runs reading past the end",
 			"C17_go_bool_reader_prefix_stable is also evaluated directly on the real reader (random data, extension, probabilities) and counted (boolreader:prefix-statement-*), not reported: it is not a statement about prefixes of valid files",
 			"codec-level truncation on the real decoders: every proper prefix of every VP8 / VP8L / ALPH payload of every generated still, re-wrapped with consistent chunk and RIFF sizes, is decoded and the outcome counted (codec-prefix:*: today rejected or same picture; not reported, a re-wrapped file is not a prefix of a valid file; a cut of the file itself never reaches the codecs: the container rejects it)")
 		files := c17Files(c)
@@ -408,6 +408,9 @@ func main() {
 				}
 				pl, pp := safeParse(p)
 				c.Case(fmt.Sprintf("P %d", n), pl)
+				if pp.ErrClass != 0 {
+					c.Count(fmt.Sprintf("parser-error-class:%d", pp.ErrClass))
+				}
 				c.D.Evaluations++
 				region := cutRegion(spans, n)
 				c17Carriers(c, &f, n, full, line, fullAnim, region)
